@@ -3,6 +3,7 @@
 
 use crate::engine::{factory_ext, is_limit_error, mask_words, short_err, GrammarSpec};
 use crate::runner::{Ctx, Prop, Tier, R};
+use crate::cfg::{cfg_case, Analysed, CfgCase, Chart};
 use crate::rx::{pick_render, rx_strategy, Dfa, Rx, RxOpts};
 use crate::util::{esc, frac, truncate_str, Fnv, B};
 use crate::vocab::{Base, Vocab, VocabSpec};
@@ -31,11 +32,15 @@ pub enum Call {
     Rollback(u16),
     RollbackTooFar,
     Accepting,
+    /// `consume_tokens` on a short sequence: an allowed token, optionally an EOS, then an allowed or an arbitrary token
+    ConsumeSeq(u16, u8, u16),
 }
 
 #[derive(Clone, Debug, Serialize, Deserialize)]
 pub enum Case {
     Matcher { rx: Rx, render: u8, vocab: VocabSpec, calls: Vec<Call> },
+    /// the matcher interface over a generated context-free grammar (several lexemes), reference = chart recogniser
+    MatcherCfg { cfg: CfgCase, vocab: VocabSpec, calls: Vec<Call> },
     Loop { rx: Rx, render: u8, vocab: VocabSpec, ff: bool, calls: Vec<Call> },
     Stop { vocab_extra: Vec<B>, stop_strings: Vec<String>, stop_regex: Option<String>, stop_tokens: Vec<u8>, text: String, cuts: Vec<u16>, specials_at: Vec<(u16, u8)> },
     /// arbitrary byte tokens (any byte, so also text that is not UTF-8) through a StopController: it must not panic
@@ -59,20 +64,40 @@ fn call_strategy() -> impl Strategy<Value = Call> {
         1 => any::<u16>().prop_map(Call::Rollback),
         1 => Just(Call::RollbackTooFar),
         1 => Just(Call::Accepting),
+        2 => any::<(u16, u8, u16)>().prop_map(|(a, f, b)| Call::ConsumeSeq(a, f, b)),
     ]
 }
 
-/// reference view of the text so far
-struct RefState<'a> {
-    d: &'a Dfa,
+/// the reference language of a case: the DFA of a regex, or the chart recogniser of a (reduced) CFG
+pub enum RefLang<'a> {
+    Dfa(&'a Dfa),
+    Cfg(&'a Analysed<'a>),
 }
-impl RefState<'_> {
+
+impl RefLang<'_> {
+    fn chart_at<'b>(a: &'b Analysed<'b>, text: &[u8]) -> Option<Chart<'b>> {
+        let mut c = Chart::new(a);
+        for &b in text {
+            if !c.push(b) {
+                return None;
+            }
+        }
+        Some(c)
+    }
     fn extensible(&self, text: &[u8]) -> bool {
-        let s = self.d.run(text);
-        (0..255u32).any(|b| self.d.is_live(self.d.step(s, b as u8)))
+        match self {
+            RefLang::Dfa(d) => {
+                let s = d.run(text);
+                (0..255u32).any(|b| d.is_live(d.step(s, b as u8)))
+            }
+            RefLang::Cfg(a) => Self::chart_at(a, text).is_some_and(|c| c.can_extend()),
+        }
     }
     fn complete(&self, text: &[u8]) -> bool {
-        self.d.accepts(text)
+        match self {
+            RefLang::Dfa(d) => d.accepts(text),
+            RefLang::Cfg(a) => Self::chart_at(a, text).is_some_and(|c| c.accepting()),
+        }
     }
     /// must the engine report a stop once `text` has been committed
     fn must_stop(&self, text: &[u8]) -> bool {
@@ -80,19 +105,43 @@ impl RefState<'_> {
     }
 }
 
-fn expected_mask(d: &Dfa, vocab: &Vocab, text: &[u8]) -> Vec<bool> {
-    let s = d.run(text);
-    (0..vocab.len() as u32)
-        .map(|t| {
-            if vocab.is_eos(t) {
-                d.is_acc(s)
-            } else if vocab.is_regular(t) && !vocab.bytes(t).contains(&0xFF) {
-                d.is_live(d.run_from(s, vocab.bytes(t)))
-            } else {
-                false
-            }
-        })
-        .collect()
+fn expected_mask(l: &RefLang, vocab: &Vocab, text: &[u8]) -> Vec<bool> {
+    let in_cmp = |t: u32| vocab.is_regular(t) && !vocab.bytes(t).contains(&0xFF);
+    match l {
+        RefLang::Dfa(d) => {
+            let s = d.run(text);
+            (0..vocab.len() as u32)
+                .map(|t| {
+                    if vocab.is_eos(t) {
+                        d.is_acc(s)
+                    } else if in_cmp(t) {
+                        d.is_live(d.run_from(s, vocab.bytes(t)))
+                    } else {
+                        false
+                    }
+                })
+                .collect()
+        }
+        RefLang::Cfg(a) => {
+            let mut c = match RefLang::chart_at(a, text) {
+                Some(c) => c,
+                None => return vec![false; vocab.len()],
+            };
+            let acc = c.accepting();
+            (0..vocab.len() as u32)
+                .map(|t| {
+                    if vocab.is_eos(t) {
+                        acc
+                    } else if in_cmp(t) {
+                        // the empty token is allowed wherever the prefix is viable, as in the DFA case
+                        c.viable_ext(vocab.bytes(t))
+                    } else {
+                        false
+                    }
+                })
+                .collect()
+        }
+    }
 }
 
 fn mask_matches(mask: &llguidance::toktrie::SimpleVob, want: &[bool], vocab: &Vocab) -> Option<String> {
@@ -115,6 +164,25 @@ impl C18 {
             _ => return Ok(()),
         };
         let (_, g) = pick_render(rx, render);
+        self.run_matcher_on(&RefLang::Dfa(&d), &g, "kind:matcher", vs, calls, ctx)
+    }
+
+    fn run_matcher_cfg(&self, cfg: &CfgCase, vs: &VocabSpec, calls: &[Call], ctx: &mut Ctx) -> R {
+        let (g, bnf) = cfg.build();
+        let a = match bnf.analyse() {
+            Some(a) if a.all_productive => a,
+            _ => return Ok(()),
+        };
+        self.run_matcher_on(&RefLang::Cfg(&a), &g, "kind:matcher_cfg", vs, calls, ctx)
+    }
+
+    fn run_matcher_on(&self, d: &RefLang, g: &GrammarSpec, kind: &str, vs: &VocabSpec, calls: &[Call], ctx: &mut Ctx) -> R {
+        // a grammar that only admits the empty string is complete and not extensible before anything is committed;
+        // the engine evaluates stops when a token is committed, so there is no report to compare at that point
+        if d.must_stop(&[]) {
+            ctx.class("skip:language-is-only-the-empty-string");
+            return Ok(());
+        }
         let vocab = match vs.build() {
             Ok(v) => v,
             Err(_) => return Ok(()),
@@ -128,8 +196,8 @@ impl C18 {
         if m.is_error() {
             return Ok(());
         }
-        ctx.class("kind:matcher");
-        let rs = RefState { d: &d };
+        ctx.class(kind);
+        let rs = d;
         let gtxt = truncate_str(&g.text(), 300);
         let mut toks: Vec<u32> = vec![];
         let mut eos_done = false;
@@ -171,7 +239,7 @@ impl C18 {
             let res: Result<String, String> = match c {
                 Call::Mask => m.compute_mask().map_err(|e| e.to_string()).and_then(|mask| {
                     if legal_state {
-                        if let Some(dif) = mask_matches(&mask, &expected_mask(&d, &vocab, &text), &vocab) {
+                        if let Some(dif) = mask_matches(&mask, &expected_mask(d, &vocab, &text), &vocab) {
                             return Err(format!("WRONG-OK mask {}", dif));
                         }
                     } else {
@@ -188,13 +256,13 @@ impl C18 {
                         if ids != vocab.eos {
                             return Err(format!("WRONG-OK after stop compute_mask_or_eos = {:?}, expected exactly the EOS set {:?}", ids, vocab.eos));
                         }
-                    } else if let Some(dif) = mask_matches(&mask, &expected_mask(&d, &vocab, &text), &vocab) {
+                    } else if let Some(dif) = mask_matches(&mask, &expected_mask(d, &vocab, &text), &vocab) {
                         return Err(format!("WRONG-OK mask {}", dif));
                     }
                     Ok("mask_or_eos".into())
                 }),
                 Call::Commit(p) | Call::CommitBad(p) | Call::CommitOutOfRange(p) | Call::CommitBlind(p) => {
-                    let want = expected_mask(&d, &vocab, &text);
+                    let want = expected_mask(d, &vocab, &text);
                     let allowed: Vec<u32> = (0..n as u32).filter(|t| want[*t as usize] && !vocab.is_eos(*t)).collect();
                     let t = match c {
                         Call::Commit(_) | Call::CommitBlind(_) => {
@@ -261,7 +329,7 @@ impl C18 {
                 Call::CommitNone => continue,
                 Call::Validate(a, b) | Call::TryConsume(a, b) => {
                     // a short sequence: allowed token(s) followed by an arbitrary one
-                    let want = expected_mask(&d, &vocab, &text);
+                    let want = expected_mask(d, &vocab, &text);
                     let allowed: Vec<u32> = (0..n as u32).filter(|t| want[*t as usize] && !vocab.is_eos(*t)).collect();
                     let mut seq = vec![];
                     if !allowed.is_empty() {
@@ -273,7 +341,7 @@ impl C18 {
                     let mut cnt = 0;
                     if legal_state {
                         for &t in &seq {
-                            let w = expected_mask(&d, &vocab, &cur);
+                            let w = expected_mask(d, &vocab, &cur);
                             if vocab.is_eos(t) {
                                 if w[t as usize] {
                                     cnt += 1;
@@ -343,6 +411,67 @@ impl C18 {
                                 } else {
                                     Err(e.to_string())
                                 }
+                            }
+                        }
+                    }
+                }
+                Call::ConsumeSeq(a, flags, b) => {
+                    // simulate the sequence token by token on the reference
+                    let regular: Vec<u32> = (0..n as u32).filter(|t| vocab.is_regular(*t) && !vocab.bytes(*t).contains(&0xFF)).collect();
+                    let mut seq: Vec<u32> = vec![];
+                    let mut cur = text.clone();
+                    let mut cur_eos = eos_done;
+                    let mut all_legal = legal_state;
+                    let step = |t: u32, seq: &mut Vec<u32>, cur: &mut Vec<u8>, cur_eos: &mut bool, all_legal: &mut bool| {
+                        let stopped = *cur_eos || rs.must_stop(cur);
+                        let w = expected_mask(d, &vocab, cur);
+                        if stopped || !w[t as usize] {
+                            *all_legal = false;
+                        }
+                        if vocab.is_eos(t) {
+                            *cur_eos = true;
+                        } else {
+                            cur.extend_from_slice(vocab.bytes(t));
+                        }
+                        seq.push(t);
+                    };
+                    let w0 = expected_mask(d, &vocab, &cur);
+                    let allowed: Vec<u32> = (0..n as u32).filter(|t| w0[*t as usize] && !vocab.is_eos(*t)).collect();
+                    if !allowed.is_empty() {
+                        step(allowed[frac(*a, allowed.len())], &mut seq, &mut cur, &mut cur_eos, &mut all_legal);
+                    }
+                    if flags & 1 != 0 {
+                        let e = if flags & 2 != 0 { *vocab.eos.last().unwrap() } else { vocab.eos[0] };
+                        step(e, &mut seq, &mut cur, &mut cur_eos, &mut all_legal);
+                    }
+                    let w1 = expected_mask(d, &vocab, &cur);
+                    let allowed1: Vec<u32> = (0..n as u32).filter(|t| w1[*t as usize] && !vocab.is_eos(*t)).collect();
+                    if flags & 4 != 0 && !allowed1.is_empty() {
+                        step(allowed1[frac(*b, allowed1.len())], &mut seq, &mut cur, &mut cur_eos, &mut all_legal);
+                    } else if flags & 8 != 0 && !regular.is_empty() {
+                        step(regular[frac(*b, regular.len())], &mut seq, &mut cur, &mut cur_eos, &mut all_legal);
+                    }
+                    if seq.is_empty() {
+                        continue;
+                    }
+                    if !all_legal {
+                        had_illegal = true;
+                    }
+                    match m.consume_tokens(&seq) {
+                        Ok(()) => {
+                            if !all_legal {
+                                Err(format!("WRONG-OK consume_tokens({:?}) succeeded although a token of it is illegal at its position (a stop precedes it, or the reference rejects it)", seq))
+                            } else {
+                                toks.extend_from_slice(&seq);
+                                eos_done = cur_eos;
+                                Ok("consume_tokens".into())
+                            }
+                        }
+                        Err(e) => {
+                            if all_legal {
+                                Err(format!("WRONG-ERR legal consume_tokens({:?}) failed: {}", seq, e))
+                            } else {
+                                Err(e.to_string())
                             }
                         }
                     }
@@ -447,7 +576,8 @@ impl C18 {
         };
         let mut c = Constraint::new(tp);
         ctx.class(if ff { "kind:loop_ff" } else { "kind:loop" });
-        let rs = RefState { d: &d };
+        let lang = RefLang::Dfa(&d);
+        let rs = &lang;
         let gtxt = truncate_str(&g.text(), 300);
         let mut text: Vec<u8> = vec![];
         let mut eos_done = false;
@@ -471,7 +601,7 @@ impl C18 {
             log.push(format!("{:?}", call));
             ctx.eval(1);
             match call {
-                Call::Mask | Call::MaskOrEos | Call::Accepting => {
+                Call::Mask | Call::MaskOrEos | Call::Accepting | Call::ConsumeSeq(..) => {
                     match c.compute_mask() {
                         Ok(r) => {
                             let r = r.clone();
@@ -496,10 +626,10 @@ impl C18 {
                             match &r.sample_mask {
                                 Some(mask) => {
                                     // with ff_tokens the mask is exact here because forced tokens are returned by commit
-                                    if let Some(dif) = mask_matches(mask, &expected_mask(&d, &vocab, &text), &vocab) {
+                                    if let Some(dif) = mask_matches(mask, &expected_mask(&lang, &vocab, &text), &vocab) {
                                         // a canonical tokenizer may still narrow to the forced token
                                         let ids = mask_ids(mask, n);
-                                        let want = expected_mask(&d, &vocab, &text);
+                                        let want = expected_mask(&lang, &vocab, &text);
                                         let narrowed = ff && ids.len() == 1 && want[ids[0] as usize];
                                         if !narrowed {
                                             return ctx.fail("C18/ok-result-contradicts-reference", || tag!(format!("mask {}", dif)));
@@ -522,7 +652,7 @@ impl C18 {
                     }
                 }
                 Call::Commit(p) | Call::CommitBad(p) | Call::CommitOutOfRange(p) | Call::CommitBlind(p) | Call::Validate(p, _) | Call::TryConsume(p, _) | Call::Rollback(p) => {
-                    let want = expected_mask(&d, &vocab, &text);
+                    let want = expected_mask(&lang, &vocab, &text);
                     let in_mask = |t: u32| have_mask.as_ref().is_some_and(|w| w[t as usize / 32] >> (t % 32) & 1 == 1);
                     let (tok, legal): (Option<u32>, bool) = match call {
                         Call::Commit(_) | Call::Validate(..) | Call::TryConsume(..) | Call::Rollback(_) => {
@@ -906,6 +1036,10 @@ impl Prop for C18 {
         );
         prop_oneof![
             3 => rxg.clone().prop_map(|(rx, render, vocab, calls)| Case::Matcher { rx, render, vocab, calls }),
+            2 => (cfg_case(), proptest::collection::vec(call_strategy(), 3..40)).prop_flat_map(|(cfg, calls)| {
+                let g = cfg.build().0;
+                (Just(cfg), syn_vocab_strategy(g, false), Just(calls))
+            }).prop_map(|(cfg, vocab, calls)| Case::MatcherCfg { cfg, vocab, calls }),
             3 => (rxg, any::<bool>()).prop_map(|((rx, render, vocab, calls), ff)| Case::Loop { rx, render, vocab, ff, calls }),
             3 => stopc.prop_map(|(vocab_extra, stop_strings, stop_regex, stop_tokens, text, cuts, specials_at)| Case::Stop { vocab_extra, stop_strings, stop_regex, stop_tokens, text, cuts, specials_at }),
             1 => (
@@ -920,6 +1054,7 @@ impl Prop for C18 {
     fn run(&self, case: &Case, ctx: &mut Ctx) -> R {
         match case {
             Case::Matcher { rx, render, vocab, calls } => self.run_matcher(rx, *render, vocab, calls, ctx),
+            Case::MatcherCfg { cfg, vocab, calls } => self.run_matcher_cfg(cfg, vocab, calls, ctx),
             Case::Loop { rx, render, vocab, ff, calls } => self.run_loop(rx, *render, vocab, *ff, calls, ctx),
             Case::Stop { vocab_extra, stop_strings, stop_regex, stop_tokens, text, cuts, specials_at } => self.run_stop(vocab_extra, stop_strings, stop_regex, stop_tokens, text, cuts, specials_at, ctx),
             Case::StopBytes { stop_strings, stop_regex, bytes } => {
